@@ -1,6 +1,9 @@
 package main
 
 import (
+	"compress/gzip"
+	"context"
+	"bufio"
 	"bytes"
 	"fmt"
 	"io"
@@ -349,6 +352,12 @@ func genC07(c *Ctx) {
 				chk(small, "error forever, 3-byte reads")
 				chk(together, "error returned together with the last bytes")
 				chk(wrapped, "a read error that wraps io.EOF (still a failure, not the end of the data)")
+				if k%3 == 0 {
+					// the read error is one of the standard library's own sentinel values: only io.EOF itself ends the data
+					for _, se := range sentinelErrs {
+						chk(itemsStr(f.decode(&faultReader{data: data[:k], err: se}, 0, limit)), fmt.Sprintf("the read fails with %q", se))
+					}
+				}
 				if oracle == "" && together != once {
 					oracle = "error delivered together with the last bytes gives a different result: " + trunc(together, 80) + " / " + trunc(once, 80)
 				}
@@ -393,6 +402,8 @@ func genC07(c *Ctx) {
 			}
 		}
 	}
+	corruptGzipFiles(c)
+	bufioDestinations(c)
 	ws := recordWriters(c)
 	for _, w := range ws {
 		reps := c.n(10)
@@ -432,6 +443,85 @@ func genC07(c *Ctx) {
 				}
 				c.add(Case{Kind: w.name + "-write", Nontrivial: k > 0 && k < len(full), Oracle: oracle,
 					Note: fmt.Sprintf("%s.Write of %q to a writer failing after %d bytes", w.name, trunc(string(full), 120), k)})
+			}
+		}
+	}
+}
+
+// sentinelErrs: errors a real source reports (a truncated gzip stream or io.ReadFull: ErrUnexpectedEOF; a
+// closed pipe or file; a deadline; a cancelled context); none of them is the end of the data
+var sentinelErrs = []error{io.ErrUnexpectedEOF, io.ErrClosedPipe, io.ErrNoProgress, os.ErrDeadlineExceeded, os.ErrClosed, context.Canceled}
+
+// corruptGzipFiles (C07, round 8): File on .gz files that are damaged after a record boundary -- truncated right
+// after a flush point, the CRC or the length trailer corrupted -- must end with an error item, never cleanly.
+func corruptGzipFiles(c *Ctx) {
+	for _, f := range formats {
+		var recs [][]byte
+		for len(recs) < 4 {
+			recs = append(recs, f.wellFormed(c))
+		}
+		var b bytes.Buffer
+		zw := gzip.NewWriter(&b)
+		var flushAt []int
+		for _, r := range recs {
+			zw.Write(r)
+			zw.Flush()
+			flushAt = append(flushAt, b.Len())
+		}
+		zw.Close()
+		whole := b.Bytes()
+		type variant struct {
+			what string
+			data []byte
+		}
+		var vs []variant
+		for j, at := range flushAt[:len(flushAt)-1] {
+			vs = append(vs, variant{fmt.Sprintf("truncated right after the flush point that follows record %d", j+1), append([]byte(nil), whole[:at]...)})
+		}
+		vs = append(vs, variant{"truncated inside the trailer", append([]byte(nil), whole[:len(whole)-3]...)})
+		crc := append([]byte(nil), whole...)
+		crc[len(crc)-6] ^= 0x5a
+		vs = append(vs, variant{"with a corrupted CRC-32 trailer", crc})
+		isz := append([]byte(nil), whole...)
+		isz[len(isz)-1] ^= 0x01
+		vs = append(vs, variant{"with a corrupted length trailer", isz})
+		for j, v := range vs {
+			p := writeTemp(fmt.Sprintf("c07gz-%s-%d.dat.gz", f.name, j), v.data, false)
+			items, st := f.file(p, 0, len(whole)*40+64)
+			os.Remove(p)
+			oracle := ""
+			if st != "" {
+				oracle = fmt.Sprintf("%s.File on a .gz file %s: %s", f.name, v.what, st)
+			} else if len(items) == 0 || items[len(items)-1] != "E" {
+				oracle = fmt.Sprintf("%s.File on a .gz file %s ends without an error item (%d items): the data is NOT complete", f.name, v.what, len(items))
+			}
+			c.add(Case{Kind: f.name + "-file-corrupt-gzip", Nontrivial: true, Oracle: oracle, Note: fmt.Sprintf("%s.File on a %d-byte .gz of %d records, %s", f.name, len(v.data), len(recs), v.what)})
+		}
+	}
+}
+
+// bufioDestinations (C07, round 8): the destination is a *bufio.Writer over a device that fails after k bytes.
+// A bufio.Writer keeps its first error and returns it from every later Write: if the record's Write returned nil,
+// the bufio.Writer must not yet hold an error.
+func bufioDestinations(c *Ctx) {
+	for _, w := range recordWriters(c) {
+		if strings.Contains(w.name, "-long") || strings.Contains(w.name, "-exact") {
+			continue
+		}
+		for i := 0; i < c.n(4); i++ {
+			write, full := w.mk()
+			for _, size := range []int{16, 64, 4096} {
+				for k := 0; k <= len(full)+1; k += 1 + len(full)/40 {
+					bw := bufio.NewWriterSize(&limitWriter{k: k}, size)
+					err := write(bw)
+					oracle := ""
+					if err == nil {
+						if _, e2 := bw.Write(nil); e2 != nil {
+							oracle = fmt.Sprintf("%s.Write to a bufio.Writer (size %d) over a device failing after %d bytes returned nil although the bufio.Writer had already failed (%v)", w.name, size, k, e2)
+						}
+					}
+					c.add(Case{Kind: w.name + "-write-bufio", Nontrivial: true, Oracle: oracle, Note: fmt.Sprintf("%s.Write of %d bytes to bufio.NewWriterSize(device failing after %d, %d)", w.name, len(full), k, size)})
+				}
 			}
 		}
 	}
